@@ -1,3 +1,5 @@
+import Goyang.Model.Number
+import Goyang.Spec.Number
 /-
 Specification for C10 (range and length restrictions): interval-set semantics over ℤ.
 
@@ -12,8 +14,9 @@ The reading of the restriction *text* (`read`) is the grammar of RFC 7950 §14 `
 `length-arg` (`part *("|" part)`, `part = bound [".." bound]`, `bound = min / max / literal`,
 optional white space around every bound) with the two liberalities of the Go code that DESIGN
 7.10 decided to model rather than flag: white space is what `strings.TrimSpace` trims, and the
-literal syntax is a parameter `lit` (instantiated with Go's documented base-0 integer syntax and
-its decimal64 syntax; that single literals are read correctly is property C15, not C10).
+literal syntax is Go's documented base-0 integer syntax resp. its decimal64 syntax (`lit`; that
+single literals are read correctly is property C15, not C10 — the functions `readBound` … `read`
+take the literal reader as a parameter).
 -/
 namespace Goyang.Spec.Range
 
@@ -125,35 +128,17 @@ def splitOnAux (sep : Bytes) : Nat → Bytes → Bytes → List Bytes
 
 def splitOn (sep s : Bytes) : List Bytes := splitOnAux sep (s.length + 1) s []
 
-/-- The byte sequences `strings.TrimSpace` removes: the UTF-8 encodings of the code points with
-the Unicode White_Space property (U+0009–U+000D, U+0020, U+0085, U+00A0, U+1680, U+2000–U+200A,
-U+2028, U+2029, U+202F, U+205F, U+3000). -/
-def spaceSeqs : List Bytes :=
-  [[9], [10], [11], [12], [13], [32], [0xC2, 0x85], [0xC2, 0xA0], [0xE1, 0x9A, 0x80],
-   [0xE2, 0x80, 0x80], [0xE2, 0x80, 0x81], [0xE2, 0x80, 0x82], [0xE2, 0x80, 0x83],
-   [0xE2, 0x80, 0x84], [0xE2, 0x80, 0x85], [0xE2, 0x80, 0x86], [0xE2, 0x80, 0x87],
-   [0xE2, 0x80, 0x88], [0xE2, 0x80, 0x89], [0xE2, 0x80, 0x8A], [0xE2, 0x80, 0xA8],
-   [0xE2, 0x80, 0xA9], [0xE2, 0x80, 0xAF], [0xE2, 0x81, 0x9F], [0xE3, 0x80, 0x80]]
+/-- White space around a boundary: what `strings.TrimSpace` removes (shared re-implementation in
+`Model.Number`, trusted glue). -/
+def trim (s : Bytes) : Bytes := Goyang.Model.Number.trimSpace s
 
-/-- Remove leading white space. Fuel = length of the text. -/
-def trimLeft : Nat → Bytes → Bytes
-  | 0, s => s
-  | fuel + 1, s =>
-    match spaceSeqs.find? fun q => q.isPrefixOf s with
-    | some q => trimLeft fuel (s.drop q.length)
-    | none => s
-
-/-- Remove white space at both ends. -/
-def trim (s : Bytes) : Bytes :=
-  let l := trimLeft s.length s
-  -- trailing white space: the reversed text starts with a reversed space sequence
-  let rec trimRevLeft : Nat → Bytes → Bytes
-    | 0, s => s
-    | fuel + 1, s =>
-      match spaceSeqs.find? fun q => q.reverse.isPrefixOf s with
-      | some q => trimRevLeft fuel (s.drop q.length)
-      | none => s
-  (trimRevLeft l.length l.reverse).reverse
+/-- The literal syntax: Go's `ParseInt` (base-0 integer syntax) for integer and length restrictions,
+`ParseDecimal` at `f` fraction digits for decimal64; the value is the signed mantissa at scale `f`.
+`none` = not a literal. (That these read single literals correctly is property C15.) -/
+def lit (dec : Bool) (f : Nat) (t : Bytes) : Option Int :=
+  match (if dec then Goyang.Model.Number.parseDecimal t f else Goyang.Model.Number.parseInt t) with
+  | .ok n => some (Goyang.Spec.Number.num n)
+  | .error _ => none
 
 def kwMin : Bytes := [109, 105, 110]   -- "min"
 def kwMax : Bytes := [109, 97, 120]    -- "max"
